@@ -73,8 +73,27 @@ struct vb_mutex { int held; };
 struct vb_cv { unsigned notified; };
 struct vb_thread { int started; int joined; void (*entry)(void *); void *arg; };
 struct vb_fstream { int handle; };
+#ifdef VB_LOCKSET
+/* lock-set tracking (C11/C06): std::lock_guard / std::unique_lock take the mutex at their declaration and release it at
+ * the end of their scope (the extractor emits VB_UNLOCK on every exit path); std::mutex is not recursive */
+#define VB_LOCK(m) do { __CPROVER_assert(!(m)->held, "C06/lock/a-stage-mutex-is-never-taken-again-by-the-thread-that-holds-it"); (m)->held = 1; } while (0)
+#define VB_UNLOCK(m) ((m)->held = 0)
+#define VB_TOUCH(self, Class, member) VB_TOUCH_##Class(self, member, "read")
+#define VB_TOUCH_W(self, Class, member) VB_TOUCH_##Class(self, member, "written")
+#endif
 #ifndef VB_LOCK
 #define VB_LOCK(m) ((void)0)
+#endif
+#ifndef VB_UNLOCK
+#define VB_UNLOCK(m) ((void)0)
+#endif
+/* member-access hook: emitted before every statement of a method of a class that owns a mutex or a thread,
+ * once per data member the statement's own expressions name (synchronisation members excepted) */
+#ifndef VB_TOUCH
+#define VB_TOUCH(self, Class, member) ((void)0)
+#endif
+#ifndef VB_TOUCH_W   /* the statement may modify the member: assignment target, ++/--, address taken, non-const method */
+#define VB_TOUCH_W(self, Class, member) ((void)0)
 #endif
 #ifndef VB_NOTIFY
 #define VB_NOTIFY(cv) ((cv)->notified++)
